@@ -13,10 +13,12 @@
 (* branch file and log appends; temp-file steps are "noop".                *)
 (*                                                                         *)
 (* TLC explores every interleaving of commands with a crash at every       *)
-(* position (MC_FS.cfg).  The one state that is not Recoverable is the     *)
-(* known finding KF-C15-1 (branch -r killed between the rename of the      *)
-(* branch file and the rewrite of HEAD); it is named here as RenameGap and *)
-(* the invariant is Recoverable \/ RenameGap, so any other gap is an error.*)
+(* position (MC_FS.cfg).  RenameFirst selects the protocol `branch -r` had *)
+(* before the repair recorded in known_findings.json (rename the branch    *)
+(* file, then rewrite HEAD): with it TLC finds the state in which HEAD     *)
+(* names a branch that no longer exists (MC_FSOld.cfg, run by the self     *)
+(* test, must FAIL).  The repaired protocol writes the new name next to    *)
+(* the old one, rewrites HEAD and removes the old name last.               *)
 (*                                                                         *)
 (* GoitFSTrace binds the plans to the code: the operation sequence of      *)
 (* every recorded run must be in the language of its command's plan        *)
@@ -25,7 +27,8 @@
 EXTENDS Integers, Sequences, FiniteSets, TLC, GoitFSLang
 
 CONSTANTS Branches,     \* branch names
-          MaxCommits    \* bound on commits created
+          MaxCommits,   \* bound on commits created
+          RenameFirst   \* TRUE: the protocol of branch -r before its repair (negative control)
 
 Commits == {"c" \o ToString(i) : i \in 1..MaxCommits}
 None == "none"
@@ -36,9 +39,8 @@ VARIABLES head,     \* branch HEAD names
           idx,      \* the blob the staging area names, or None
           made,     \* commits created so far
           run,      \* command in progress: [cmd, pc, plan, tgt] or [cmd |-> "idle"]
-          pre,      \* refs and head when the command in progress started
-          gap       \* TRUE after the known-finding crash (exploration stops there)
-vars == <<head, refs, objs, idx, made, run, pre, gap>>
+          pre       \* refs and head when the command in progress started
+vars == <<head, refs, objs, idx, made, run, pre>>
 
 Idle == [cmd |-> "idle"]
 
@@ -54,7 +56,11 @@ PlanCommit(c) ==
       \o TmpThen(Op("setref", head, c)) \o <<Log, Log>> \o TmpThen(Op("sethead", head, ""))
 PlanBranch(n) == TmpThen(Op("setref", n, refs[head])) \o <<Log>>
 PlanDelete(n) == <<Op("delref", n, ""), Op("dellog", n, "")>>
-PlanRename(n) == <<Op("renref", head, n)>> \o TmpThen(Op("sethead", n, "")) \o <<Log, Log, Op("dellog", head, ""), Log, Log>>
+PlanRename(n) ==
+    IF RenameFirst
+    THEN <<Op("renref", head, n)>> \o TmpThen(Op("sethead", n, "")) \o <<Log, Log, Op("dellog", head, ""), Log, Log>>
+    ELSE TmpThen(Op("setref", n, refs[head])) \o TmpThen(Op("sethead", n, ""))
+           \o <<Op("delref", head, ""), Log, Log, Op("dellog", head, ""), Log, Log>>
 PlanSwitch(b) == TmpThen(Op("sethead", b, "")) \o <<Log>>
 PlanSwitchC(n) == TmpThen(Op("setref", n, refs[head])) \o TmpThen(Op("sethead", n, "")) \o <<Log, Log>>
 PlanUpdateRef(b, c) == TmpThen(Op("setref", b, c)) \o TmpThen(Op("sethead", b, ""))
@@ -75,11 +81,11 @@ Born == HasCommit(head)
 
 (* -------- commands -------- *)
 Start(cmd, plan, isCommit) ==
-    /\ run = Idle /\ ~gap
+    /\ run = Idle
     /\ run' = [cmd |-> cmd, pc |-> 1, plan |-> plan]
     /\ pre' = [refs |-> refs, head |-> head]
     /\ made' = IF isCommit THEN made + 1 ELSE made
-    /\ UNCHANGED <<head, refs, objs, idx, gap>>
+    /\ UNCHANGED <<head, refs, objs, idx>>
 
 NextBlob == "b_c" \o ToString(made + 1)
 StartAdd == Start("add", PlanAdd(NextBlob), FALSE)
@@ -98,20 +104,18 @@ Step ==
     /\ run # Idle
     /\ Apply(run.plan[run.pc])
     /\ run' = IF run.pc = Len(run.plan) THEN Idle ELSE [run EXCEPT !.pc = run.pc + 1]
-    /\ UNCHANGED <<made, pre, gap>>
+    /\ UNCHANGED <<made, pre>>
 
 (* the process is killed before its next operation *)
-InRenameGapNow == run # Idle /\ run.cmd = "branchr" /\ run.pc \in 2..4      \* after renref, before sethead
 Crash ==
     /\ run # Idle
     /\ run' = Idle
-    /\ gap' = InRenameGapNow
     /\ UNCHANGED <<head, refs, objs, idx, made, pre>>
 
 Init ==
     /\ head = CHOOSE b \in Branches : TRUE
     /\ refs = [b \in Branches |-> None]
-    /\ objs = {} /\ idx = None /\ made = 0 /\ run = Idle /\ gap = FALSE
+    /\ objs = {} /\ idx = None /\ made = 0 /\ run = Idle
     /\ pre = [refs |-> [b \in Branches |-> None], head |-> CHOOSE b \in Branches : TRUE]
 
 Next == StartAdd \/ StartCommit \/ StartBranch \/ StartDelete \/ StartRename \/ StartSwitch \/ StartSwitchC
@@ -125,8 +129,7 @@ Recoverable ==
     /\ \A b \in Branches : HasCommit(b) => CommitComplete(refs[b])
     /\ idx # None => idx \in objs
     /\ (\E b \in Branches : HasCommit(b)) => (Born \/ pre.refs[pre.head] = None)    \* HEAD does not lose its commit
-RenameGap == (gap \/ InRenameGapNow) /\ ~Born /\ \E b \in Branches : HasCommit(b)
-C15_Recoverable == Recoverable \/ RenameGap
+C15_Recoverable == Recoverable
 (* each branch holds the commit it had when the running command started, or the one the command installs *)
 Target(b) ==
     IF run = Idle THEN {refs[b]}
